@@ -217,8 +217,9 @@ class CheckerWrapper(FnSpec):
                 ("clock", c.post.time == R.end), ("suspension_state_restored", self.state_restored(c))]
 
     def modifies(self, c):
-        m = [("attr:ctx_binding", INPROG)]
-        return m + [("set", self.p["b0"])]
+        # the in-progress set itself is in nobody's modifies clause (C12: a set that other contexts may share is
+        # never changed in place); only the binding of the context variable changes, and it is restored
+        return [("attr:ctx_binding", INPROG)]
 
 
 def ex_ref(c, v):
